@@ -170,6 +170,47 @@ example :
     r.map (·.2.1.1) = some [("K", [("n", exScalar 3)])] ∧ r.map (·.2.1.2) = some [exScalar 321] ∧
       r.map (·.2.2.1) = some [exVec [320, 300, 0]] := by decide
 
+/-- when the constancy check of the broadcast pass rejects the body (a broadcast collection or a
+`broadcast` output depends on the carry or on scanned data), `lift.scan` never returns a value -/
+theorem scan_rejects_broadcast_dependency {α : Type} [Inhabited α] (cfg : ScanCfg) (body : Body α)
+    (scopeMut : LFilter) (outer : Vars α) (rngs : Rngs) (init : List (Arr α)) (args : List (Arr α)) :
+    opt (liftScan cfg false body scopeMut outer rngs init args) = none := by
+  rw [scan_eq_loop]
+  have hcore : ∀ inArgAxes dLength,
+      loopCore cfg false (innerMutable scopeMut cfg.outFs) body outer rngs init args inArgAxes dLength = none := by
+    intro inArgAxes dLength
+    unfold loopCore
+    cases loopDims cfg outer rngs inArgAxes args dLength with
+    | none => rfl
+    | some dims =>
+      simp only [Option.bind_some]
+      cases opt (jaxLength cfg.length dims) with
+      | none => rfl
+      | some n =>
+        simp only [Option.bind_some]
+        split
+        · rfl
+        · cases loopStep cfg (innerMutable scopeMut cfg.outFs) body outer rngs inArgAxes args dLength
+            (roleGroup outer cfg.inFs 0) (roleGroup outer cfg.inFs 1, init)
+            (if cfg.reverse then n - 1 else 0) with
+          | none => rfl
+          | some r0 =>
+            simp only [Option.bind_some]
+            cases opt (cfg.outAxes.expand r0.2.2.1.length) with
+            | none => rfl
+            | some oy => rfl
+  unfold loopSpec
+  simp only [hcore, Option.map_none]
+  cases opt (argSizes cfg.inAxes args) with
+  | none => rfl
+  | some sizes =>
+    simp only [Option.bind_some]
+    cases opt (decideLength cfg.length sizes) with
+    | none => rfl
+    | some dLength =>
+      simp only [Option.bind_some]
+      cases opt (cfg.inAxes.expand args.length) <;> rfl
+
 /-- `unroll` never matters (A-SCAN: it is not even an input of `lax.scan`'s meaning) -/
 theorem scan_unroll_irrelevant {α : Type} [Inhabited α] (cfg : ScanCfg) (u : Nat) (verdict : Bool)
     (body : Body α) (scopeMut : LFilter) (outer : Vars α) (rngs : Rngs) (init args : List (Arr α)) :
